@@ -550,3 +550,752 @@ Proof.
     rewrite session_app_skip; [exact Hses|]. apply Hto; exact Hc.
   - apply trace_ok_neutral; [|exact Htr]. intros e Hin. apply Hev; exact Hin.
 Qed.
+
+Lemma neutral_reset c nx e : In e [EReset c] -> neutral e /\ ev_lt nx e.
+Proof. intros [<-|[]]. split; exact I. Qed.
+
+Lemma weaker_refl c p : weaker c p p.
+Proof. repeat split; auto. Qed.
+
+Lemma Inv_step g tr s a s' ev :
+  Inv tr s -> act_ok g s a = true -> Step g s a s' ev -> Inv (ev ++ tr) s'.
+Proof.
+  intros HI Hok HS. pose proof HI as [Hs Hv Hsg Hch Hcn Htr].
+  destruct HS as
+    [c p0 Hp0 Hst | c p0 Hp0 Hst | a nx nw Hnx | a c p l nx Hp Hnx | c x p l Hp
+    | c r pref p l Hp | c ext p Hp
+    | c r pref p l ch Hp Hpc Hver Hkd
+    | c r pref p l ch idx old Hp Hpc Hver Hkd Hne Hold Hopk Host | | k m].
+  - (* new peer, static *)
+    unfold upd_peers. apply Inv_frame;
+      [exact HI|apply ksorted_aset; exact Hs|lia|intros e; apply neutral_reset|].
+    intros c0 p' Hget. apply aget_aset_cases in Hget as [[-> ->]|[Hn Hget]].
+    + destruct (aget c (peers s)) as [p|] eqn:Hp.
+      * subst p0. left. exists p. split; [reflexivity|]. split; [|cbn; discriminate].
+        repeat split; cbn; auto; discriminate.
+      * subst p0. right. cbn. split; [reflexivity|discriminate].
+    + left. exists p'. split; [exact Hget|]. split; [apply weaker_refl|].
+      intros _ e [<-|[]]. cbn. apply N.eqb_neq; congruence.
+  - (* new peer, handshake initiated *)
+    assert (Hnoacc : forall c' k', ~ In (EAccepted c' k' (next s)) tr).
+    { intros c' k' Hin. rewrite Forall_forall in Hv. specialize (Hv _ Hin). cbn in Hv. lia. }
+    constructor; cbn [peers next signed app].
+    + apply ksorted_aset; exact Hs.
+    + constructor; [cbn; lia|]. constructor; [exact I|].
+      eapply Forall_ev_lt_mono; [|exact Hv]. lia.
+    + intros k m Hin. right; right. apply Hsg; exact Hin.
+    + intros c0 p' ch Hget Hc. apply aget_aset_cases in Hget as [[-> ->]|[Hn Hget]].
+      * cbn in Hc. inv Hc. split; [left; reflexivity|].
+        intros c' k' [E|[E|Hin]]; try discriminate. eapply Hnoacc; eauto.
+      * destruct (Hch _ _ _ Hget Hc) as [Hi Hna]. split; [right; right; exact Hi|].
+        intros c' k' [E|[E|Hin]]; try discriminate. eapply Hna; eauto.
+    + intros c0 p' Hget Hc. apply aget_aset_cases in Hget as [[-> ->]|[Hn Hget]].
+      * cbn in Hc. discriminate.
+      * destruct (Hcn _ _ Hget Hc) as [K [ch [HK Hses]]]. exists K, ch. split; [exact HK|].
+        cbn [session]. destruct (N.eqb_spec c c0); [congruence|exact Hses].
+    + cbn [trace_ok ev_ok]. split; [|split; [exact I|exact Htr]].
+      constructor; [exact I|exact Hv].
+  - (* nothing happens *)
+    apply (Inv_frame tr s (peers s) (addr s) nx nw []); auto; [intros e []|].
+    intros c p' Hget. left. exists p'. split; [exact Hget|]. split; [apply weaker_refl|].
+    intros _ e [].
+  - (* rate limited *)
+    apply (Inv_frame tr s _ (addr s) nx (now s) []); auto using ksorted_aset; [intros e []|].
+    intros c0 p' Hget. apply aget_aset_cases in Hget as [[-> ->]|[Hn Hget]]; left.
+    + exists p. split; [exact Hp|]. split; [|intros _ e []]. repeat split; cbn; auto.
+    + exists p'. split; [exact Hget|]. split; [apply weaker_refl|intros _ e []].
+  - (* challenge answered: signs x, issues a fresh challenge *)
+    pose proof (bump_ge s x) as Hge. pose proof (bump_gt s x) as Hgt.
+    assert (Hnoacc : forall c' k', ~ In (EAccepted c' k' (bump s x)) tr).
+    { intros c' k' Hin. rewrite Forall_forall in Hv. specialize (Hv _ Hin). cbn in Hv. lia. }
+    constructor; cbn [peers next signed app].
+    + apply ksorted_aset; exact Hs.
+    + constructor; [cbn; lia|]. constructor; [cbn; lia|].
+      eapply Forall_ev_lt_mono; [|exact Hv]. lia.
+    + intros k m [E|Hin]; [inv E; right; left; reflexivity|right; right; apply Hsg; exact Hin].
+    + intros c0 p' ch Hget Hc. apply aget_aset_cases in Hget as [[-> ->]|[Hn Hget]].
+      * cbn in Hc. inv Hc. split; [left; reflexivity|].
+        intros c' k' [E|[E|Hin]]; try discriminate. eapply Hnoacc; eauto.
+      * destruct (Hch _ _ _ Hget Hc) as [Hi Hna]. split; [right; right; exact Hi|].
+        intros c' k' [E|[E|Hin]]; try discriminate. eapply Hna; eauto.
+    + intros c0 p' Hget Hc. apply aget_aset_cases in Hget as [[-> ->]|[Hn Hget]].
+      * cbn in Hc. destruct (Hcn _ _ Hp Hc) as [K [ch [HK Hses]]]. exists K, ch. split; [exact HK|].
+        exact Hses.
+      * destruct (Hcn _ _ Hget Hc) as [K [ch [HK Hses]]]. exists K, ch. split; [exact HK|]. exact Hses.
+    + cbn [trace_ok ev_ok]. split; [|split; [exact I|exact Htr]].
+      constructor; [cbn; lia|]. eapply Forall_ev_lt_mono; [|exact Hv]. exact Hge.
+  - (* rejected response *)
+    apply Inv_frame;
+      [exact HI|apply ksorted_aset; exact Hs|apply bump_ge|intros e; apply neutral_reset|].
+    intros c0 p' Hget. apply aget_aset_cases in Hget as [[-> ->]|[Hn Hget]].
+    + right. cbn. split; [reflexivity|discriminate].
+    + left. exists p'. split; [exact Hget|]. split; [apply weaker_refl|].
+      intros _ e [<-|[]]. cbn. apply N.eqb_neq; congruence.
+  - (* disconnect *)
+    unfold upd_peers. apply Inv_frame;
+      [exact HI|apply ksorted_aset; exact Hs|lia|intros e; apply neutral_reset|].
+    intros c0 p' Hget. apply aget_aset_cases in Hget as [[-> ->]|[Hn Hget]].
+    + right. cbn. split; [reflexivity|discriminate].
+    + left. exists p'. split; [exact Hget|]. split; [apply weaker_refl|].
+      intros _ e [<-|[]]. cbn. apply N.eqb_neq; congruence.
+  - (* accepted *)
+    pose proof (verify_true _ _ _ Hver) as Hsig.
+    cbn [act_ok] in Hok. rewrite Hsig in Hok. apply in_signed_In in Hok. apply Hsg in Hok.
+    destruct (Hch _ _ _ Hp Hpc) as [Hiss Hnoacc].
+    assert (Hlt : ch < next s).
+    { rewrite Forall_forall in Hv. specialize (Hv _ Hiss). exact Hv. }
+    pose proof (bump_ge s (r_chal r)) as Hge. pose proof (bump_gt s (r_chal r)) as Hgt.
+    set (K := r_pk r) in *.
+    assert (Hevs : forall e, In e (accept_events g p r c ch) ->
+                             e = ESigned (me g) (r_chal r) \/ e = EAccepted c K ch).
+    { unfold accept_events. intros e Hin. apply in_app_or in Hin as [Hin|[<-|[]]]; [|right; reflexivity].
+      destruct (p_static p); [destruct Hin|]. destruct Hin as [<-|[]]. left; reflexivity. }
+    assert (Hacc_in : In (EAccepted c K ch) (accept_events g p r c ch ++ tr)).
+    { apply in_or_app. left. unfold accept_events. apply in_or_app. right. left. reflexivity. }
+    assert (Htr' : trace_ok (accept_events g p r c ch ++ tr)).
+    { unfold accept_events. destruct (p_static p); cbn [app trace_ok ev_ok]; repeat split; auto. }
+    assert (Hses : forall c0, session c0 (accept_events g p r c ch ++ tr) =
+                              if c =? c0 then Some (K, ch) else session c0 tr).
+    { intros c0. unfold accept_events. destruct (p_static p); cbn [app session]; reflexivity. }
+    constructor; cbn [peers next signed].
+    + apply ksorted_aset; exact Hs.
+    + apply Forall_app. split.
+      * apply Forall_forall. intros e Hin. destruct (Hevs _ Hin) as [->| ->]; cbn; lia.
+      * eapply Forall_ev_lt_mono; [|exact Hv]. exact Hge.
+    + intros k m Hin. apply in_or_app. unfold accept_signed, accept_events in *.
+      destruct (p_static p); cbn [app].
+      * right. apply Hsg; exact Hin.
+      * destruct Hin as [E|Hin]; [inv E; left; left; reflexivity|right; apply Hsg; exact Hin].
+    + intros c0 p' ch0 Hget Hc. apply aget_aset_cases in Hget as [[-> ->]|[Hn Hget]].
+      * cbn in Hc. discriminate.
+      * destruct (Hch _ _ _ Hget Hc) as [Hi Hna]. split; [apply in_or_app; right; exact Hi|].
+        intros c' k' Hin. apply in_app_or in Hin as [Hin|Hin]; [|eapply Hna; eauto].
+        destruct (Hevs _ Hin) as [E|E]; [discriminate|]. inv E.
+        apply Hn. exact (issued_unique tr c0 c ch Htr Hi Hiss).
+    + intros c0 p' Hget Hc. apply aget_aset_cases in Hget as [[-> ->]|[Hn Hget]].
+      * exists K, ch. split; [reflexivity|]. rewrite Hses, N.eqb_refl. reflexivity.
+      * destruct (Hcn _ _ Hget Hc) as [K0 [ch0 [HK Hs0]]]. exists K0, ch0. split; [exact HK|].
+        rewrite Hses. destruct (N.eqb_spec c c0); [congruence|exact Hs0].
+    + exact Htr'.
+  - (* accepted as a reconnection *)
+    pose proof (verify_true _ _ _ Hver) as Hsig.
+    cbn [act_ok] in Hok. rewrite Hsig in Hok. apply in_signed_In in Hok. apply Hsg in Hok.
+    destruct (Hch _ _ _ Hp Hpc) as [Hiss Hnoacc].
+    assert (Hlt : ch < next s).
+    { rewrite Forall_forall in Hv. specialize (Hv _ Hiss). exact Hv. }
+    pose proof (bump_ge s (r_chal r)) as Hge. pose proof (bump_gt s (r_chal r)) as Hgt.
+    set (K := r_pk r) in *.
+    assert (Hevs : forall e, In e (accept_events g p r c ch) ->
+                             e = ESigned (me g) (r_chal r) \/ e = EAccepted c K ch).
+    { unfold accept_events. intros e Hin. apply in_app_or in Hin as [Hin|[<-|[]]]; [|right; reflexivity].
+      destruct (p_static p); [destruct Hin|]. destruct Hin as [<-|[]]. left; reflexivity. }
+    assert (Htr' : trace_ok (accept_events g p r c ch ++ tr)).
+    { unfold accept_events. destruct (p_static p); cbn [app trace_ok ev_ok]; repeat split; auto. }
+    assert (Hses : forall c0, session c0 (accept_events g p r c ch ++ tr) =
+                              if c =? c0 then Some (K, ch) else session c0 tr).
+    { intros c0. unfold accept_events. destruct (p_static p); cbn [app session]; reflexivity. }
+    assert (Hget' : forall c0 p', aget c0 (aset c (mkP Connected (p_static old) None (Some K) (r_cver r)
+                         (r_wver r) (p_lim old) None) (del idx (aset c (accepted_peer p l r) (peers s)))) = Some p' ->
+                    (c0 = c /\ p_chal p' = None /\ p_pk p' = Some K)
+                    \/ (c0 <> c /\ c0 <> idx /\ aget c0 (peers s) = Some p')).
+    { intros c0 p' Hget. apply aget_aset_cases in Hget as [[-> ->]|[Hn Hget]]; [left; cbn; auto|].
+      right. split; [exact Hn|]. destruct (N.eq_dec c0 idx) as [->|Hni].
+      - rewrite aget_del_eq in Hget. discriminate.
+      - rewrite aget_del_neq in Hget by exact Hni. rewrite aget_aset_neq in Hget by exact Hn. auto. }
+    constructor; cbn [peers next signed].
+    + apply ksorted_aset. apply del_ksorted. apply ksorted_aset. exact Hs.
+    + cbn [app]. constructor; [exact I|]. apply Forall_app. split.
+      * apply Forall_forall. intros e Hin. destruct (Hevs _ Hin) as [->| ->]; cbn; lia.
+      * eapply Forall_ev_lt_mono; [|exact Hv]. exact Hge.
+    + intros k m Hin. cbn [app]. right. apply in_or_app. unfold accept_signed, accept_events in *.
+      destruct (p_static p); cbn [app].
+      * right. apply Hsg; exact Hin.
+      * destruct Hin as [E|Hin]; [inv E; left; left; reflexivity|right; apply Hsg; exact Hin].
+    + intros c0 p' ch0 Hget Hc. apply Hget' in Hget as [[-> [Hcn0 _]]|[Hn [Hni Hget]]]; [congruence|].
+      destruct (Hch _ _ _ Hget Hc) as [Hi Hna]. cbn [app]. split; [right; apply in_or_app; right; exact Hi|].
+      intros c' k' [E|Hin]; [discriminate|]. apply in_app_or in Hin as [Hin|Hin]; [|eapply Hna; eauto].
+      destruct (Hevs _ Hin) as [E|E]; [discriminate|]. inv E.
+      apply Hn. exact (issued_unique tr c0 c ch Htr Hi Hiss).
+    + intros c0 p' Hget Hc. cbn [app session]. apply Hget' in Hget as [[-> [_ Hpk]]|[Hn [Hni Hget]]].
+      * exists K, ch. split; [exact Hpk|]. destruct (N.eqb_spec idx c); [contradiction|].
+        rewrite Hses, N.eqb_refl. reflexivity.
+      * destruct (Hcn _ _ Hget Hc) as [K0 [ch0 [HK Hs0]]]. exists K0, ch0. split; [exact HK|].
+        destruct (N.eqb_spec idx c0); [congruence|].
+        rewrite Hses. destruct (N.eqb_spec c c0); [congruence|exact Hs0].
+    + cbn [app trace_ok ev_ok]. split; [exact I|exact Htr'].
+  - (* purge *)
+    apply Inv_frame; auto using ksorted_filter; [lia| |].
+    + intros e Hin. apply in_map_iff in Hin as [cp [<- _]]. split; exact I.
+    + intros c p' Hget. rewrite aget_filter in Hget by exact Hs.
+      destruct (aget c (peers s)) as [p|] eqn:Hp; [|discriminate].
+      destruct (purgeable (now s) (c, p)) eqn:Hpg; cbn [negb] in Hget; [discriminate|]. inv Hget.
+      left. exists p'. split; [reflexivity|]. split; [apply weaker_refl|].
+      intros _ e Hin. apply in_map_iff in Hin as [[c1 p1] [<- Hin]]. cbn [fst touches].
+      apply N.eqb_neq. intros ->. apply filter_In in Hin as [Hin Hpg1].
+      apply (in_aget _ _ _ Hs) in Hin. rewrite Hp in Hin. inv Hin. congruence.
+  - (* a remote key holder signs *)
+    pose proof (bump_ge s m) as Hge. pose proof (bump_gt s m) as Hgt.
+    constructor; cbn [peers next signed app].
+    + exact Hs.
+    + constructor; [cbn; lia|]. eapply Forall_ev_lt_mono; [|exact Hv]. exact Hge.
+    + intros k0 m0 [E|Hin]; [inv E; left; reflexivity|right; apply Hsg; exact Hin].
+    + intros c p ch Hget Hc. destruct (Hch _ _ _ Hget Hc) as [Hi Hna]. split; [right; exact Hi|].
+      intros c' k' [E|Hin]; [discriminate|]. eapply Hna; eauto.
+    + intros c p Hget Hc. destruct (Hcn _ _ Hget Hc) as [K [ch [HK Hses]]]. exists K, ch.
+      split; [exact HK|exact Hses].
+    + cbn [trace_ok ev_ok]. split; [exact I|exact Htr].
+Qed.
+
+(* ------------------------------------------------------------------ *)
+(* reachability                                                         *)
+(* ------------------------------------------------------------------ *)
+(* Every run of the node from its initial state (n configured static peers)
+   against an environment that delivers any messages in any order on any
+   connection, opens and closes connections, lets time pass, and makes
+   signatures with any key but the node's own.  The only restriction is
+   [act_ok]: a delivered signature is one that exists (symbolic unforgeability). *)
+Inductive Reach (g : cfg) (n : nat) (f0 : N) : list event -> state -> Prop :=
+| R_init : Reach g n f0 [] (init n f0)
+| R_step tr s a s' outs ev :
+    Reach g n f0 tr s -> act_ok g s a = true -> step g s a = Ok (s', outs, ev) ->
+    Reach g n f0 (ev ++ tr) s'.
+
+Lemma Reach_Inv g n f0 tr s : Reach g n f0 tr s -> Inv tr s.
+Proof.
+  induction 1 as [|tr s a s' outs ev HR IH Hok Hst]; [apply Inv_init|].
+  eapply Inv_step; eauto. eapply step_Step; eauto. apply IH.
+Qed.
+
+(* ------------------------------------------------------------------ *)
+(* authentication                                                       *)
+(* ------------------------------------------------------------------ *)
+Lemma accepted_count_zero ch l :
+  (forall c k, ~ In (EAccepted c k ch) l) -> accepted_count ch l = 0%nat.
+Proof.
+  unfold accepted_count. induction l as [|e t IH]; intros H; [reflexivity|].
+  cbn [filter]. destruct (is_accept_of ch e) eqn:He.
+  - exfalso. destruct e; cbn in He; try discriminate. apply N.eqb_eq in He. subst.
+    eapply H. left. reflexivity.
+  - apply IH. intros c k Hin. eapply H. right. exact Hin.
+Qed.
+
+Lemma accepted_count_app ch l1 l2 :
+  accepted_count ch (l1 ++ l2) = (accepted_count ch l1 + accepted_count ch l2)%nat.
+Proof. unfold accepted_count. now rewrite filter_app, app_length. Qed.
+
+Lemma accepted_facts tr c K ch :
+  trace_ok tr -> In (EAccepted c K ch) tr ->
+  before (EIssued c ch) (ESigned K ch) tr
+  /\ before (ESigned K ch) (EAccepted c K ch) tr
+  /\ accepted_count ch tr = 1%nat.
+Proof.
+  intros Htr Hin. apply in_split in Hin as [l3 [l Htr_eq]]. subst tr.
+  destruct (trace_ok_split _ _ _ Htr) as [[Hsig [Hiss Hno]] Hl].
+  (* the challenge was issued before it was signed *)
+  apply in_split in Hiss as [a [b Hl_eq]].
+  assert (Hb : Forall (ev_lt ch) b).
+  { rewrite Hl_eq in Hl. apply trace_ok_split in Hl as [Hb _]. exact Hb. }
+  assert (Hsig_a : In (ESigned K ch) a).
+  { rewrite Hl_eq in Hsig. apply in_app_or in Hsig as [H|[H|H]]; [exact H|discriminate|].
+    rewrite Forall_forall in Hb. specialize (Hb _ H). cbn in Hb. lia. }
+  apply in_split in Hsig_a as [a2 [a1 Ha]].
+  split; [|split].
+  - exists b, a1, (l3 ++ EAccepted c K ch :: a2). subst l a.
+    repeat (cbn [app]; rewrite <- app_assoc). cbn [app]. reflexivity.
+  - exists (a1 ++ EIssued c ch :: b), a2, l3. subst l a.
+    repeat (cbn [app]; rewrite <- app_assoc). cbn [app]. reflexivity.
+  - rewrite accepted_count_app.
+    assert (H3 : accepted_count ch l3 = 0%nat).
+    { apply accepted_count_zero. intros c' k' Hin. apply in_split in Hin as [x [y Hx]]. subst l3.
+      rewrite <- app_assoc in Htr. cbn [app] in Htr.
+      apply trace_ok_split in Htr as [[_ [_ Hno']] _].
+      apply (Hno' c K). apply in_or_app. right. left. reflexivity. }
+    rewrite H3. unfold accepted_count. cbn [filter is_accept_of]. rewrite N.eqb_refl. cbn [length].
+    fold (accepted_count ch l). rewrite accepted_count_zero by exact Hno. reflexivity.
+Qed.
+
+Lemma accepted_at_most_once tr ch : trace_ok tr -> (accepted_count ch tr <= 1)%nat.
+Proof.
+  intros Htr. destruct (accepted_count ch tr) as [|n] eqn:E; [lia|].
+  assert (Hex : exists c k, In (EAccepted c k ch) tr).
+  { unfold accepted_count in E. destruct (filter (is_accept_of ch) tr) as [|e t] eqn:Hf; [discriminate|].
+    assert (Hin : In e (filter (is_accept_of ch) tr)) by (rewrite Hf; left; reflexivity).
+    apply filter_In in Hin as [Hin He]. destruct e; cbn in He; try discriminate.
+    apply N.eqb_eq in He. subst. eauto. }
+  destruct Hex as [c [k Hin]]. destruct (accepted_facts _ _ _ _ Htr Hin) as [_ [_ H1]]. lia.
+Qed.
+
+Theorem connected_authentic g n f0 tr s c p K :
+  Reach g n f0 tr s ->
+  aget c (peers s) = Some p -> p_status p = Connected -> p_pk p = Some K ->
+  exists ch,
+    session c tr = Some (K, ch)
+    /\ before (EIssued c ch) (ESigned K ch) tr
+    /\ before (ESigned K ch) (EAccepted c K ch) tr
+    /\ accepted_count ch tr = 1%nat.
+Proof.
+  intros HR Hp Hst Hpk. apply Reach_Inv in HR. destruct HR as [_ _ _ _ Hcn Htr].
+  destruct (Hcn _ _ Hp Hst) as [K0 [ch [HK Hses]]]. rewrite Hpk in HK. inv HK.
+  exists ch. split; [exact Hses|]. apply accepted_facts; [exact Htr|].
+  apply session_in. exact Hses.
+Qed.
+
+Theorem challenge_accepted_once g n f0 tr s ch :
+  Reach g n f0 tr s -> (accepted_count ch tr <= 1)%nat.
+Proof. intros HR. apply accepted_at_most_once. apply (Reach_Inv _ _ _ _ _ HR). Qed.
+
+(* after an acceptance on c nothing is outstanding on c: the same response
+   delivered again finds no stored challenge *)
+Lemma accept_events_in g p r c ch c' K ch' :
+  In (EAccepted c' K ch') (accept_events g p r c ch) -> c' = c /\ K = r_pk r /\ ch' = ch.
+Proof.
+  unfold accept_events. intros Hin. apply in_app_or in Hin as [Hin|[E|[]]]; [|inv E; auto].
+  destruct (p_static p); [destruct Hin|destruct Hin as [E|[]]; discriminate].
+Qed.
+
+Theorem accept_clears_challenge g s c r pref s' outs ev K ch :
+  ksorted (peers s) ->
+  step g s (ADeliverResp c r pref) = Ok (s', outs, ev) -> In (EAccepted c K ch) ev ->
+  exists p', aget c (peers s') = Some p' /\ p_chal p' = None /\ p_status p' = Connected
+             /\ p_pk p' = Some K.
+Proof.
+  intros Hs Hst Hin. apply step_Step in Hst; [|exact Hs].
+  inversion Hst; subst.
+  - destruct Hin.
+  - destruct Hin.
+  - destruct Hin as [E|[]]; discriminate.
+  - apply accept_events_in in Hin as [_ [-> _]].
+    cbn [peers]. rewrite aget_aset_eq. eexists. split; [reflexivity|]. cbn. auto.
+  - destruct Hin as [E|Hin]; [discriminate|]. apply accept_events_in in Hin as [_ [-> _]].
+    cbn [peers]. rewrite aget_aset_eq. eexists. split; [reflexivity|]. cbn. auto.
+Qed.
+
+(* ------------------------------------------------------------------ *)
+(* rejected responses are inert                                         *)
+(* ------------------------------------------------------------------ *)
+(* the four ways in which a response is not the answer to the challenge
+   outstanding on connection entry p *)
+Definition rejects (g : cfg) (p : peer) (r : response) : Prop :=
+  v_is_set (r_cver r) = false                                  (* no version *)
+  \/ p_chal p = None                                           (* unsolicited *)
+  \/ (exists ch, p_chal p = Some ch /\ verify ch (r_sig r) (r_pk r) = false)
+                                                               (* other challenge / bad signature / other key *)
+  \/ v_same_minor (my_cver g) (r_cver r) = false.              (* incompatible version *)
+
+Lemma rejects_peer_response g nw c p r :
+  rejects g p r -> exists outs, peer_response g nw c p r = PRejected (mark_disc nw p) outs.
+Proof.
+  intros H. destruct (peer_response_cases g nw c p r)
+    as [Hr|[[_ Hk]|[ch [o [Hch [Hv [_ [Hset [Hmin _]]]]]]]]]; [exact Hr| |].
+  - (* a panic needs a response that passes every check *)
+    unfold peer_response.
+    destruct (v_is_set (r_cver r)) eqn:E1; cbn [negb]; [|eauto].
+    destruct (p_chal p) as [ch|] eqn:E2; [|eauto].
+    destruct (verify ch (r_sig r) (r_pk r)) eqn:E3; cbn [negb]; [|eauto].
+    destruct (v_same_minor (my_cver g) (r_cver r)) eqn:E4; cbn [negb]; [|eauto].
+    exfalso. destruct H as [H|[H|[[ch' [H1 H2]]|H]]]; try congruence.
+  - exfalso. destruct H as [H|[H|[[ch' [H1 H2]]|H]]]; try congruence.
+Qed.
+
+Theorem bad_response_inert g s c r pref :
+  (forall p, aget c (peers s) = Some p -> rejects g p r) ->
+  exists s' outs ev,
+    step g s (ADeliverResp c r pref) = Ok (s', outs, ev)
+    /\ (forall c', c' <> c -> aget c' (peers s') = aget c' (peers s))
+    /\ addr s' = addr s
+    /\ signed s' = signed s
+    /\ (forall e, In e ev -> e = EReset c)
+    /\ (forall p', aget c (peers s') = Some p' ->
+          exists p, aget c (peers s) = Some p /\ p_pk p' = p_pk p
+                    /\ (p_status p' = Connected -> p_status p = Connected)).
+Proof.
+  intros Hrej. cbn [step].
+  destruct (aget c (peers s)) as [p|] eqn:Hp.
+  - destruct (lim_check (now s) (lim_increase (p_lim p))) as [ex l]. destruct ex.
+    + do 3 eexists. split; [reflexivity|]. cbn [peers addr signed].
+      repeat split; try reflexivity.
+      * intros c' Hne. apply aget_aset_neq; exact Hne.
+      * intros e [].
+      * intros p'. rewrite aget_aset_eq. intros E; inv E. exists p. cbn. auto.
+    + assert (Hr : rejects g (set_lim p l) r) by (apply (Hrej p eq_refl)).
+      destruct (rejects_peer_response g (now s) c _ r Hr) as [o Ho]. rewrite Ho.
+      do 3 eexists. split; [reflexivity|]. cbn [peers addr signed].
+      repeat split; try reflexivity.
+      * intros c' Hne. apply aget_aset_neq; exact Hne.
+      * intros e [<-|[]]. reflexivity.
+      * intros p'. rewrite aget_aset_eq. intros E; inv E. exists p. cbn.
+        split; [reflexivity|]. split; [reflexivity|discriminate].
+  - do 3 eexists. split; [reflexivity|]. cbn [peers addr signed].
+    repeat split; try reflexivity.
+    + intros e [].
+    + intros p' E. rewrite Hp in E. discriminate.
+Qed.
+
+(* ------------------------------------------------------------------ *)
+(* panics                                                               *)
+(* ------------------------------------------------------------------ *)
+(* the one class of inputs on which the handler panics: a response that passes
+   every check, delivered on an entry that already records another key *)
+Definition known_keychange (g : cfg) (s : state) (a : action) : bool :=
+  match a with
+  | ADeliverResp c r _ =>
+      match aget c (peers s) with
+      | Some p => key_differs p (r_pk r)
+      | None => false
+      end
+  | _ => false
+  end.
+
+Lemma step_panic g s a site :
+  ksorted (peers s) -> step g s a = Panic site ->
+  known_keychange g s a = true /\ site = SITE_KEY_CHANGED.
+Proof.
+  intros Hs H. destruct a as [c|c x|c r pref|c ext| |dt|k m]; cbn [step] in H.
+  - destruct (p_static _); discriminate.
+  - destruct (aget c (peers s)); [|discriminate].
+    destruct (lim_check _ _) as [ex l]. destruct ex; discriminate.
+  - cbn [known_keychange]. destruct (aget c (peers s)) as [p|] eqn:Hp; [|discriminate].
+    destruct (lim_check (now s) (lim_increase (p_lim p))) as [ex l].
+    destruct ex; [discriminate|].
+    destruct (peer_response_cases g (now s) c (set_lim p l) r)
+      as [[o Hr]|[[Hr Hk]|[ch [o [Hch [Hv [Hk [_ [_ Hr]]]]]]]]]; rewrite Hr in H.
+    + discriminate.
+    + inv H. split; [exact Hk|reflexivity].
+    + exfalso. cbn [set_lim p_chal p_static p_lim] in *.
+      change (accepted_peer (set_lim p l) l r) with (accepted_peer p l r) in H.
+      set (ps1 := aset c (accepted_peer p l r) (peers s)) in *.
+      assert (Hs1 : ksorted ps1) by (apply ksorted_aset; exact Hs).
+      assert (Hc1 : aget c ps1 = Some (accepted_peer p l r)) by apply aget_aset_eq.
+      destruct (find_reconnected (r_pk r) pref ps1) as [idx|] eqn:Hf; [|discriminate].
+      destruct (find_reconnected_some _ _ _ _ Hs1 Hf) as [old [Hold Hcand]].
+      rewrite Hold in H. apply cand_spec in Hcand as [Hpk Hnc].
+      assert (Hne : idx <> c).
+      { intros ->. rewrite Hc1 in Hold. inv Hold. apply Hnc. reflexivity. }
+      rewrite aget_del_neq in H by congruence. rewrite Hc1 in H.
+      destruct (status_eqb (p_status old) Connected) eqn:Hst; [|discriminate].
+      apply status_eqb_eq in Hst. contradiction.
+  - destruct (aget c (peers s)); discriminate.
+  - discriminate.
+  - discriminate.
+  - discriminate.
+Qed.
+
+Theorem no_panic_guarded g n f0 tr s a site :
+  Reach g n f0 tr s -> known_keychange g s a = false -> step g s a <> Panic site.
+Proof.
+  intros HR Hk H. apply step_panic in H as [H _]; [congruence|].
+  apply (Reach_Inv _ _ _ _ _ HR).
+Qed.
+
+(* ------------------------------------------------------------------ *)
+(* address_to_peers                                                     *)
+(* ------------------------------------------------------------------ *)
+Definition addr_sound (s : state) : Prop :=
+  forall K c, aget K (addr s) = Some c ->
+  exists p, aget c (peers s) = Some p /\ p_pk p = Some K.
+
+Definition addr_complete (s : state) : Prop :=
+  forall c p K, aget c (peers s) = Some p -> p_pk p = Some K ->
+  exists c', aget K (addr s) = Some c'.
+
+Definition is_removed (e : event) : bool := match e with ERemoved _ => true | _ => false end.
+Definition has_removed (tr : list event) : bool := existsb is_removed tr.
+
+Lemma aget_fold_del gone : forall a K c,
+  aget K (fold_left del_key_of gone a) = Some c ->
+  aget K a = Some c /\ forall cp, In cp gone -> p_pk (snd cp) <> Some K.
+Proof.
+  induction gone as [|x t IH]; intros a K c H; cbn [fold_left] in H.
+  - split; [exact H|intros ? []].
+  - apply IH in H as [H Ht]. unfold del_key_of in H.
+    destruct (p_pk (snd x)) as [k|] eqn:Hk.
+    + destruct (N.eq_dec K k) as [->|Hne]; [rewrite aget_del_eq in H; discriminate|].
+      rewrite aget_del_neq in H by exact Hne. split; [exact H|].
+      intros cp [<-|Hin]; [congruence|apply Ht; exact Hin].
+    + split; [exact H|]. intros cp [<-|Hin]; [congruence|apply Ht; exact Hin].
+Qed.
+
+Lemma key_differs_false p K K' : key_differs p K = false -> p_pk p = Some K' -> K' = K.
+Proof.
+  unfold key_differs. intros H E. rewrite E in H. apply negb_false_iff in H.
+  now apply N.eqb_eq in H.
+Qed.
+
+Lemma addr_sound_step g s a s' ev :
+  ksorted (peers s) -> addr_sound s -> Step g s a s' ev -> addr_sound s'.
+Proof.
+  intros Hs HA HS.
+  destruct HS as
+    [c p0 Hp0 Hst | c p0 Hp0 Hst | a nx nw Hnx | a c p l nx Hp Hnx | c x p l Hp
+    | c r pref p l Hp | c ext p Hp
+    | c r pref p l ch Hp Hpc Hver Hkd
+    | c r pref p l ch idx old Hp Hpc Hver Hkd Hne Hold Hopk Host | | k m];
+    intros K c0 Hget; cbn [addr peers upd_peers] in *.
+  - destruct (HA _ _ Hget) as [q [Hq Hk]]. destruct (N.eq_dec c0 c) as [->|Hn].
+    + rewrite aget_aset_eq. eexists. split; [reflexivity|]. rewrite Hq in Hp0. subst p0. exact Hk.
+    + rewrite aget_aset_neq by exact Hn. eauto.
+  - destruct (HA _ _ Hget) as [q [Hq Hk]]. destruct (N.eq_dec c0 c) as [->|Hn].
+    + rewrite aget_aset_eq. eexists. split; [reflexivity|]. rewrite Hq in Hp0. subst p0. exact Hk.
+    + rewrite aget_aset_neq by exact Hn. eauto.
+  - apply HA; exact Hget.
+  - destruct (HA _ _ Hget) as [q [Hq Hk]]. destruct (N.eq_dec c0 c) as [->|Hn].
+    + rewrite aget_aset_eq. eexists. split; [reflexivity|]. rewrite Hp in Hq. inv Hq. exact Hk.
+    + rewrite aget_aset_neq by exact Hn. eauto.
+  - destruct (HA _ _ Hget) as [q [Hq Hk]]. destruct (N.eq_dec c0 c) as [->|Hn].
+    + rewrite aget_aset_eq. eexists. split; [reflexivity|]. rewrite Hp in Hq. inv Hq. exact Hk.
+    + rewrite aget_aset_neq by exact Hn. eauto.
+  - destruct (HA _ _ Hget) as [q [Hq Hk]]. destruct (N.eq_dec c0 c) as [->|Hn].
+    + rewrite aget_aset_eq. eexists. split; [reflexivity|]. rewrite Hp in Hq. inv Hq. exact Hk.
+    + rewrite aget_aset_neq by exact Hn. eauto.
+  - destruct (HA _ _ Hget) as [q [Hq Hk]]. destruct (N.eq_dec c0 c) as [->|Hn].
+    + rewrite aget_aset_eq. eexists. split; [reflexivity|]. rewrite Hp in Hq. inv Hq. exact Hk.
+    + rewrite aget_aset_neq by exact Hn. eauto.
+  - (* accepted *)
+    destruct (N.eq_dec K (r_pk r)) as [->|HnK].
+    + rewrite aget_aset_eq in Hget. inv Hget. rewrite aget_aset_eq. eexists. split; reflexivity.
+    + rewrite aget_aset_neq in Hget by exact HnK. destruct (HA _ _ Hget) as [q [Hq Hk]].
+      assert (Hn : c0 <> c).
+      { intros ->. rewrite Hp in Hq. inv Hq. apply HnK. eapply key_differs_false; eauto. }
+      rewrite aget_aset_neq by exact Hn. eauto.
+  - (* reconnection *)
+    destruct (N.eq_dec K (r_pk r)) as [->|HnK]; [rewrite aget_del_eq in Hget; discriminate|].
+    rewrite aget_del_neq in Hget by exact HnK. destruct (HA _ _ Hget) as [q [Hq Hk]].
+    assert (Hn : c0 <> c).
+    { intros ->. rewrite Hp in Hq. inv Hq. apply HnK. eapply key_differs_false; eauto. }
+    assert (Hni : c0 <> idx).
+    { intros ->. rewrite Hold in Hq. inv Hq. congruence. }
+    rewrite aget_aset_neq by exact Hn. rewrite aget_del_neq by exact Hni.
+    rewrite aget_aset_neq by exact Hn. eauto.
+  - (* purge *)
+    apply aget_fold_del in Hget as [Hget Hgone]. destruct (HA _ _ Hget) as [q [Hq Hk]].
+    exists q. split; [|exact Hk]. rewrite aget_filter by exact Hs. rewrite Hq.
+    destruct (purgeable (now s) (c0, q)) eqn:Hpg; [|reflexivity].
+    exfalso. apply (Hgone (c0, q)); [|exact Hk].
+    apply filter_In. split; [apply aget_in; exact Hq|exact Hpg].
+  - apply HA; exact Hget.
+Qed.
+
+Theorem address_sound g n f0 tr s : Reach g n f0 tr s -> addr_sound s.
+Proof.
+  induction 1 as [|tr s a s' outs ev HR IH Hok Hst].
+  - intros K c H. discriminate.
+  - eapply addr_sound_step; [|exact IH|].
+    + apply (Reach_Inv _ _ _ _ _ HR).
+    + eapply step_Step; [|exact Hst]. apply (Reach_Inv _ _ _ _ _ HR).
+Qed.
+
+Lemma filter_none_all {A} (f : A -> bool) l :
+  filter f l = [] -> filter (fun x => negb (f x)) l = l.
+Proof.
+  induction l as [|x t IH]; cbn [filter]; [reflexivity|].
+  destruct (f x); [discriminate|]. cbn [negb]. intros H. now rewrite IH.
+Qed.
+
+Lemma has_removed_app a b : has_removed (a ++ b) = has_removed a || has_removed b.
+Proof. apply existsb_app. Qed.
+
+Lemma addr_complete_step g s a s' ev :
+  addr_complete s -> Step g s a s' ev -> has_removed ev = false -> addr_complete s'.
+Proof.
+  intros HA HS Hrm.
+  destruct HS as
+    [c p0 Hp0 Hst | c p0 Hp0 Hst | a nx nw Hnx | a c p l nx Hp Hnx | c x p l Hp
+    | c r pref p l Hp | c ext p Hp
+    | c r pref p l ch Hp Hpc Hver Hkd
+    | c r pref p l ch idx old Hp Hpc Hver Hkd Hne Hold Hopk Host | | k m];
+    try (intros c0 q K Hget Hk; cbn [addr peers upd_peers] in *;
+         apply aget_aset_cases in Hget as [[-> ->]|[Hn Hget]]; [|eapply HA; eauto]).
+  - cbn in Hk. destruct (aget c (peers s)) as [p|] eqn:Hp; subst p0; [eapply HA; eauto|discriminate].
+  - cbn in Hk. destruct (aget c (peers s)) as [p|] eqn:Hp; subst p0; [eapply HA; eauto|discriminate].
+  - intros c0 q K Hget Hk. eapply HA; eauto.
+  - cbn in Hk. eapply HA; eauto.
+  - cbn in Hk. eapply HA; eauto.
+  - cbn in Hk. eapply HA; eauto.
+  - cbn in Hk. eapply HA; eauto.
+  - (* accepted: the key is inserted *)
+    intros c0 q K Hget Hk. cbn [addr peers] in *.
+    destruct (N.eq_dec K (r_pk r)) as [->|HnK]; [rewrite aget_aset_eq; eauto|].
+    rewrite aget_aset_neq by exact HnK.
+    apply aget_aset_cases in Hget as [[-> ->]|[Hn Hget]]; [cbn in Hk; congruence|eapply HA; eauto].
+  - cbn in Hrm. discriminate.
+  - (* purge that removes nothing *)
+    assert (Hg : filter (purgeable (now s)) (peers s) = []).
+    { destruct (filter (purgeable (now s)) (peers s)); [reflexivity|cbn in Hrm; discriminate]. }
+    intros c0 q K Hget Hk. cbn [addr peers] in *. rewrite Hg. cbn [fold_left].
+    rewrite (filter_none_all _ _ Hg) in Hget. eapply HA; eauto.
+  - intros c0 q K Hget Hk. eapply HA; eauto.
+Qed.
+
+Theorem address_complete_guarded g n f0 tr s :
+  Reach g n f0 tr s -> has_removed tr = false -> addr_complete s.
+Proof.
+  induction 1 as [|tr s a s' outs ev HR IH Hok Hst]; intros Hrm.
+  - intros c p K Hget Hk. apply aget_in in Hget. apply static_peers_in in Hget as [_ E].
+    cbn [snd] in E. subst p. discriminate.
+  - rewrite has_removed_app in Hrm. apply orb_false_iff in Hrm as [H1 H2].
+    eapply addr_complete_step; [apply IH; exact H2| |exact H1].
+    eapply step_Step; [|exact Hst]. apply (Reach_Inv _ _ _ _ _ HR).
+Qed.
+
+(* ------------------------------------------------------------------ *)
+(* runs are reachable; concrete witnesses                               *)
+(* ------------------------------------------------------------------ *)
+Lemma run_Reach g n f0 acts : forall tr s s' ev,
+  Reach g n f0 tr s -> run_ok g s acts = true -> run g s acts = Ok (s', ev) ->
+  Reach g n f0 (ev ++ tr) s'.
+Proof.
+  induction acts as [|a t IH]; intros tr s s' ev HR Hok Hrun; cbn [run run_ok] in *.
+  - inv Hrun. exact HR.
+  - apply andb_true_iff in Hok as [Ha Hok].
+    destruct (step g s a) as [[[s1 o1] ev1]| |] eqn:Hst; try discriminate.
+    destruct (run g s1 t) as [[s2 ev2]| |] eqn:Hr; try discriminate. inv Hrun.
+    rewrite <- app_assoc. eapply IH; [|exact Hok|exact Hr].
+    eapply R_step; eauto.
+Qed.
+
+Definition g1 : cfg := mkC 1 (mkV 1 2 3) (mkV 1 2 5).
+Definition g2 : cfg := mkC 2 (mkV 1 2 3) (mkV 1 2 5).
+Definition vA : version := mkV 1 2 3.
+Definition vW : version := mkV 1 2 5.
+
+(* an honest run in both roles: incoming connection 2 authenticates key 2,
+   the static (outgoing) connection 1 authenticates key 4 *)
+Definition honest_acts : list action :=
+  [ANewPeer 2; ARemoteSign 2 1; ADeliverResp 2 (mkR 2 (Sig 2 1) 2 vA vW) 0;
+   ANewPeer 1; ADeliverChal 1 3; ARemoteSign 4 4; ADeliverResp 1 (mkR 4 (Sig 4 4) 0 vA vW) 0].
+
+Lemma honest_run :
+  exists tr s p2 p1, Reach g1 1 1 tr s
+    /\ aget 2 (peers s) = Some p2 /\ p_status p2 = Connected /\ p_pk p2 = Some 2
+    /\ aget 1 (peers s) = Some p1 /\ p_status p1 = Connected /\ p_pk p1 = Some 4
+    /\ aget 2 (addr s) = Some 2 /\ aget 4 (addr s) = Some 1.
+Proof.
+  destruct (run g1 (init 1 1) honest_acts) as [[s ev]| |] eqn:Hr; try (vm_compute in Hr; discriminate).
+  pose proof (run_Reach g1 1 1 honest_acts [] (init 1 1) s ev (R_init _ _ _) eq_refl Hr) as HR.
+  rewrite app_nil_r in HR. vm_compute in Hr. inv Hr.
+  do 4 eexists. split; [exact HR|]. vm_compute. repeat split; reflexivity.
+Qed.
+
+(* reconnection: key 2 authenticates on 2, the connection drops, key 2
+   authenticates again on 3: the old entry is merged and address_to_peers has
+   no entry for the key any more *)
+Definition reconnect_acts : list action :=
+  [ANewPeer 2; ARemoteSign 2 1; ADeliverResp 2 (mkR 2 (Sig 2 1) 2 vA vW) 0;
+   ADisconnect 2 true;
+   ANewPeer 3; ARemoteSign 2 3; ADeliverResp 3 (mkR 2 (Sig 2 3) 4 vA vW) 0].
+
+Lemma address_complete_refuted :
+  exists tr s c p K, Reach g1 1 1 tr s
+    /\ aget c (peers s) = Some p /\ p_status p = Connected /\ p_pk p = Some K
+    /\ aget K (addr s) = None.
+Proof.
+  destruct (run g1 (init 1 1) reconnect_acts) as [[s ev]| |] eqn:Hr; try (vm_compute in Hr; discriminate).
+  pose proof (run_Reach g1 1 1 reconnect_acts [] (init 1 1) s ev (R_init _ _ _) eq_refl Hr) as HR.
+  rewrite app_nil_r in HR. vm_compute in Hr. inv Hr.
+  eexists _, _, 3, _, 2. split; [exact HR|]. vm_compute. repeat split; reflexivity.
+Qed.
+
+(* the purge drops the key of a live connection: key 2 is authenticated on 2
+   and on 3, 3 goes away and is purged after ten minutes *)
+Definition purge_acts : list action :=
+  [ANewPeer 2; ARemoteSign 2 1; ADeliverResp 2 (mkR 2 (Sig 2 1) 2 vA vW) 0;
+   ANewPeer 3; ARemoteSign 2 3; ADeliverResp 3 (mkR 2 (Sig 2 3) 4 vA vW) 0;
+   ADisconnect 3 false; ATick 600000; APurge].
+
+Lemma address_complete_refuted_by_purge :
+  exists tr s p, Reach g1 1 1 tr s
+    /\ aget 2 (peers s) = Some p /\ p_status p = Connected /\ p_pk p = Some 2
+    /\ aget 2 (addr s) = None.
+Proof.
+  destruct (run g1 (init 1 1) purge_acts) as [[s ev]| |] eqn:Hr; try (vm_compute in Hr; discriminate).
+  pose proof (run_Reach g1 1 1 purge_acts [] (init 1 1) s ev (R_init _ _ _) eq_refl Hr) as HR.
+  rewrite app_nil_r in HR. vm_compute in Hr. inv Hr.
+  do 3 eexists. split; [exact HR|]. vm_compute. repeat split; reflexivity.
+Qed.
+
+(* key change on one entry: key 3 authenticates on 2, asks for a new
+   handshake (sends a challenge, gets a fresh one back) and answers it with key 4 *)
+Definition keychange_acts : list action :=
+  [ANewPeer 2; ARemoteSign 3 1; ADeliverResp 2 (mkR 3 (Sig 3 1) 2 vA vW) 0;
+   ADeliverChal 2 5; ARemoteSign 4 6].
+Definition keychange_last : action := ADeliverResp 2 (mkR 4 (Sig 4 6) 7 vA vW) 0.
+
+Lemma no_panic_refuted :
+  exists tr s a, Reach g1 1 1 tr s /\ act_ok g1 s a = true
+                 /\ step g1 s a = Panic SITE_KEY_CHANGED.
+Proof.
+  destruct (run g1 (init 1 1) keychange_acts) as [[s ev]| |] eqn:Hr; try (vm_compute in Hr; discriminate).
+  pose proof (run_Reach g1 1 1 keychange_acts [] (init 1 1) s ev (R_init _ _ _) eq_refl Hr) as HR.
+  rewrite app_nil_r in HR. vm_compute in Hr. inv Hr.
+  eexists _, _, keychange_last. split; [exact HR|]. vm_compute. split; reflexivity.
+Qed.
+
+(* reflection: the attacker opens 2 and 3, shows the challenge of 2 to the node
+   on 3, and returns the node's own signature on 2.  No key but the node's own
+   ever signs anything. *)
+Definition reflection_acts : list action :=
+  [ANewPeer 2; ANewPeer 3; ADeliverChal 3 1; ADeliverResp 2 (mkR 1 (Sig 1 1) 4 vA vW) 0].
+
+Definition signed_only_by (k : N) (tr : list event) : Prop :=
+  forall k' m, In (ESigned k' m) tr -> k' = k.
+
+Lemma reflection_connected :
+  exists tr s p, Reach g1 1 1 tr s
+    /\ aget 2 (peers s) = Some p /\ p_status p = Connected /\ p_pk p = Some (me g1)
+    /\ signed_only_by (me g1) tr.
+Proof.
+  destruct (run g1 (init 1 1) reflection_acts) as [[s ev]| |] eqn:Hr; try (vm_compute in Hr; discriminate).
+  pose proof (run_Reach g1 1 1 reflection_acts [] (init 1 1) s ev (R_init _ _ _) eq_refl Hr) as HR.
+  rewrite app_nil_r in HR. vm_compute in Hr. inv Hr.
+  do 3 eexists. split; [exact HR|]. split; [vm_compute; reflexivity|].
+  split; [reflexivity|]. split; [reflexivity|].
+  intros k' m Hin. cbn in Hin.
+  repeat (destruct Hin as [E|Hin]; [try discriminate; inv E; reflexivity|]). destruct Hin.
+Qed.
+
+(* relay: two honest nodes A (key 1) and B (key 2).  The attacker opens
+   connection 2 to A and connection 7 to B, shows A's challenge to B, and
+   forwards B's answer to A.  The attacker signs nothing.  A marks the
+   attacker's connection Connected under B's key; B has authenticated nobody. *)
+Definition relay_acts : list waction :=
+  [WA (ANewPeer 2); WB (ANewPeer 7); WB (ADeliverChal 7 1);
+   WA (ADeliverResp 2 (mkR 2 (Sig 2 1) 1001 vA vW) 0)].
+
+Lemma relay_connected :
+  exists w pa pb,
+    wrun g1 g2 (mkW (init 1 1) (init 0 1000)) relay_acts = Ok (w, true)
+    /\ aget 2 (peers (w_a w)) = Some pa /\ p_status pa = Connected /\ p_pk pa = Some (me g2)
+    /\ aget 2 (addr (w_a w)) = Some 2
+    /\ peers (w_b w) = [(7, pb)] /\ p_status pb = Connecting /\ p_pk pb = None
+    /\ addr (w_b w) = [].
+Proof.
+  do 3 eexists. vm_compute. repeat split; reflexivity.
+Qed.
+
+(* ------------------------------------------------------------------ *)
+(* the known classes, as propositions                                   *)
+(* ------------------------------------------------------------------ *)
+(* a response delivered on an entry that already records a different key *)
+Definition Known_C17_keychange (g : cfg) (s : state) (a : action) : Prop :=
+  known_keychange g s a = true.
+(* a run in which an entry was removed from the collection (reconnection merge or purge) *)
+Definition Known_C17_removed (tr : list event) : Prop := has_removed tr = true.
+
+Theorem no_panic_guarded' g n f0 tr s a site :
+  Reach g n f0 tr s -> ~ Known_C17_keychange g s a -> step g s a <> Panic site.
+Proof.
+  intros HR Hk. eapply no_panic_guarded; [exact HR|].
+  unfold Known_C17_keychange in Hk. destruct (known_keychange g s a); [exfalso; auto|reflexivity].
+Qed.
+
+Theorem address_complete_guarded' g n f0 tr s c p K :
+  Reach g n f0 tr s -> ~ Known_C17_removed tr ->
+  aget c (peers s) = Some p -> p_pk p = Some K ->
+  exists c' p', aget K (addr s) = Some c' /\ aget c' (peers s) = Some p' /\ p_pk p' = Some K.
+Proof.
+  intros HR Hk Hp HK.
+  assert (Hrm : has_removed tr = false).
+  { unfold Known_C17_removed in Hk. destruct (has_removed tr); [exfalso; auto|reflexivity]. }
+  destruct (address_complete_guarded _ _ _ _ _ HR Hrm _ _ _ Hp HK) as [c' Hc'].
+  destruct (address_sound _ _ _ _ _ HR _ _ Hc') as [p' [Hp' HK']]. eauto.
+Qed.
